@@ -84,13 +84,11 @@ Theorem C08_NeighBench_rewrite : forall o o', wf_NeighBench o ->
   reload "NeighBench" ser_NeighBench deser_NeighBench o = Some o' ->
   file "NeighBench" ser_NeighBench o' = file "NeighBench" ser_NeighBench o.
 Proof. intros o o' H. apply rewrite_of_roundtrip. apply C08_NeighBench_roundtrip; exact H. Qed.
-(* NeighBench::create(false, 2.5): getWidth() is 2.5 before, 0 after (only the checker's copy is rebuilt) *)
-Theorem C08_NeighBench_refuted : exists o,
-  option_map nb_width (reload "NeighBench" ser_NeighBench deser_NeighBench o) <> Some (nb_width o).
-Proof.
-  exists {| nb_base := aneigh_default 2; nb_width := Some (5#2)%Q; nb_bipt_width := Some (5#2)%Q |}.
-  vm_compute. congruence.
-Qed.
+(* regression: NeighBench::create(false, 2.5) keeps getWidth() = 2.5 (it came back as 0 before the fix) *)
+Theorem C08_NeighBench_width_kept :
+  let o := {| nb_base := aneigh_default 2; nb_width := Some (5#2)%Q; nb_bipt_width := Some (5#2)%Q |} in
+  reload "NeighBench" ser_NeighBench deser_NeighBench o = Some o.
+Proof. vm_compute. reflexivity. Qed.
 
 (* ---- NeighCell *)
 Theorem C08_NeighCell_roundtrip : forall o, wf_NeighCell o ->
@@ -102,7 +100,7 @@ Theorem C08_NeighCell_rewrite : forall o o', wf_NeighCell o ->
   file "NeighCell" ser_NeighCell o' = file "NeighCell" ser_NeighCell o.
 Proof. intros o o' H. apply rewrite_of_roundtrip. apply C08_NeighCell_roundtrip; exact H. Qed.
 
-(* ---- NeighMoving: isotropic, or anisotropic without rotation and with radius 1 or undefined *)
+(* ---- NeighMoving: isotropic, anisotropic and rotated search ellipsoids, any radius *)
 Theorem C08_NeighMoving_roundtrip : forall o, wf_NeighMoving o ->
   reload "NeighMoving" ser_NeighMoving deser_NeighMoving o = Some o.
 Proof. intros o H. apply roundtrip_of_reads; [reflexivity | apply good_NeighMoving | apply NeighMoving_reads; exact H]. Qed.
@@ -111,16 +109,20 @@ Theorem C08_NeighMoving_rewrite : forall o o', wf_NeighMoving o ->
   reload "NeighMoving" ser_NeighMoving deser_NeighMoving o = Some o' ->
   file "NeighMoving" ser_NeighMoving o' = file "NeighMoving" ser_NeighMoving o.
 Proof. intros o o' H. apply rewrite_of_roundtrip. apply C08_NeighMoving_roundtrip; exact H. Qed.
-(* radius 20, coefficients (1, 0.5): reloaded coefficients (20, 10) *)
-Theorem C08_NeighMoving_refuted_scaling :
-  option_map nm_coeffs (reload "NeighMoving" ser_NeighMoving deser_NeighMoving nm_witness_scaling) = Some [Some 20%Q; Some 10%Q]
-  /\ nm_coeffs nm_witness_scaling = [Some 1%Q; Some (1#2)%Q].
-Proof. split; [exact NeighMoving_scaling_witness | reflexivity]. Qed.
-(* rotated ellipse: the matrix comes back, the rotation flag does not *)
-Theorem C08_NeighMoving_refuted_rotation :
-  option_map (fun o => (nm_rot o, nm_rotmat o)) (reload "NeighMoving" ser_NeighMoving deser_NeighMoving nm_witness_rotation)
-  = Some (false, nm_rotmat nm_witness_rotation) /\ nm_rot nm_witness_rotation = true.
-Proof. split; [exact NeighMoving_rotation_witness | reflexivity]. Qed.
+(* regression witnesses of the former defects: radius 20, coefficients (1, 0.5) (came back as (20, 10)); rotated
+   ellipse create(false,10,20.,1,1,0,{1,.5},{30,0}) (the rotation flag came back false) *)
+Theorem C08_NeighMoving_scaling_cured :
+  reload "NeighMoving" ser_NeighMoving deser_NeighMoving nm_witness_scaling = Some nm_witness_scaling.
+Proof. vm_compute. reflexivity. Qed.
+Theorem C08_NeighMoving_rotation_cured :
+  reload "NeighMoving" ser_NeighMoving deser_NeighMoving nm_witness_rotation = Some nm_witness_rotation.
+Proof. vm_compute. reflexivity. Qed.
+(* what is still lost: the flags of ANeigh and _distCont are never written *)
+Theorem C08_NeighMoving_refuted_distcont :
+  let o := {| nm_base := aneigh_default 2; nm_nmini := 1; nm_nmaxi := 10; nm_nsect := 1; nm_nsmax := 0; nm_distcont := Some (1#8)%Q;
+              nm_radius := Some 20%Q; nm_aniso := false; nm_rot := false; nm_coeffs := [d1; d1]; nm_rotmat := idmat 2 |} in
+  option_map nm_distcont (reload "NeighMoving" ser_NeighMoving deser_NeighMoving o) = Some None.
+Proof. vm_compute. reflexivity. Qed.
 
 (* ---- Table: any number of rows and columns *)
 Theorem C08_Table_roundtrip : forall o, wf_Table o -> reload "Table" ser_Table deser_Table o = Some o.
@@ -151,13 +153,12 @@ Theorem C08_Polygons_rewrite : forall o o', wf_Polygons o ->
   reload "Polygon" ser_Polygons deser_Polygons o = Some o' -> file "Polygon" ser_Polygons o' = file "Polygon" ser_Polygons o.
 Proof. intros o o' H. apply rewrite_of_roundtrip. apply C08_Polygons_roundtrip; exact H. Qed.
 
-(* ---- AnamHermite: any number of coefficients (at least one), point support (r >= 1); mean and variance must be the
-   ones the coefficients give.  With a block support (r < 1) the coefficients are written multiplied by r^i and read
-   back as raw coefficients: refuted. *)
-Theorem C08_AnamHermite_refuted :
-  option_map ah_psi (reload "AnamHermite" ser_AnamHermite deser_AnamHermite ah_witness) = Some [Some 1%Q; Some 1%Q; Some 1%Q]
-  /\ ah_psi ah_witness = [Some 1%Q; Some 2%Q; Some 4%Q].
-Proof. split; [exact AnamHermite_witness | reflexivity]. Qed.
+(* ---- AnamHermite: any number of coefficients (at least one), point or block support; mean and variance must be the
+   ones the coefficients give *)
+(* regression witness of the former defect (block support r = 1/2, coefficients (1, 2, 4) came back as (1, 1, 1)) *)
+Theorem C08_AnamHermite_block_cured :
+  reload "AnamHermite" ser_AnamHermite deser_AnamHermite ah_witness = Some ah_witness.
+Proof. vm_compute. reflexivity. Qed.
 Theorem C08_AnamHermite_roundtrip : forall o, wf_AnamHermite o ->
   reload "AnamHermite" ser_AnamHermite deser_AnamHermite o = Some o.
 Proof. intros o H. apply roundtrip_of_reads; [reflexivity | apply good_AnamHermite | apply AnamHermite_reads; exact H]. Qed.
@@ -167,10 +168,9 @@ Theorem C08_AnamHermite_rewrite : forall o o', wf_AnamHermite o ->
   file "AnamHermite" ser_AnamHermite o' = file "AnamHermite" ser_AnamHermite o.
 Proof. intros o o' H. apply rewrite_of_roundtrip. apply C08_AnamHermite_roundtrip; exact H. Qed.
 
-(* ---- Db: any number of columns (at least one) and samples; names are words; locators other than facies / gausfac.
-   The two replay hypotheses are executable: they say that Db::setNameByUID / setLocatorByUID, applied column by
-   column to the fresh Db, give back the names / locators (true for every Db met by the correspondence except the
-   refuted ones below). *)
+(* ---- Db: any number of columns (at least one) and samples; distinct names that are words; any locators.
+   The replay hypothesis on the locators is executable: it says that Db::setLocatorByUID, applied column by column to
+   the fresh Db, gives back the locators (true for every Db met by the correspondence). *)
 Theorem C08_Db_roundtrip : forall o, wf_Db o -> reload "Db" ser_Db deser_Db o = Some o.
 Proof.
   intros o H. apply roundtrip_of_reads; [reflexivity | | apply Db_reads; exact H].
@@ -184,20 +184,19 @@ Proof. intros o o' H. apply rewrite_of_roundtrip. apply C08_Db_roundtrip; exact 
 Theorem C08_Db_locator_text : forall l, wf_lc l -> loc_identify (loc_name l) = Some l.
 Proof. exact loc_identify_name. Qed.
 Print Assumptions C08_Db_locator_text.
-(* sufficient condition for the names hypothesis of wf_Db: distinct names, none equal to a provisional name "New-k" *)
-Theorem C08_Db_names_replay : forall names,
-  NoDup names -> (forall w, In w names -> ~ In w (default_names (length names))) -> replay_names names = names.
-Proof. exact replay_names_id. Qed.
+(* distinct names are kept (correctNamesForDuplicates) *)
+Theorem C08_Db_names_replay : forall names, NoDup names -> replay_names names = names.
+Proof. exact replay_names_nodup. Qed.
 Print Assumptions C08_Db_names_replay.
-(* "facies1" starts like "f": the column comes back as external drift f1 (same for gausfac -> g) *)
-Theorem C08_Db_refuted_facies :
-  let o := {| db_nech := 1; db_names := [W "fac"]; db_locs := [Some (23%nat, 0)]; db_rows := [[Some 1%Q]] |} in
-  option_map db_locs (reload "Db" ser_Db deser_Db o) = Some [Some (3%nat, 0)].
+(* regression witnesses of the former defects: "facies1" was identified as "f"; a first column called like the
+   provisional name of the second one ("New-2") was renamed *)
+Theorem C08_Db_facies_cured :
+  let o := {| db_nech := 1; db_names := [W "fac"; W "gf"]; db_locs := [Some (23%nat, 0); Some (24%nat, 1)]; db_rows := [[Some 1%Q; Some 2%Q]] |} in
+  option_map db_locs (reload "Db" ser_Db deser_Db o) = Some [Some (23%nat, 0); Some (24%nat, 1)].
 Proof. vm_compute. reflexivity. Qed.
-(* a column called like a provisional name of resetDims ("New-2" in first position) is renamed on reload *)
-Theorem C08_Db_refuted_names :
+Theorem C08_Db_names_cured :
   let o := {| db_nech := 1; db_names := [W "New-2"; W "a"]; db_locs := [None; None]; db_rows := [[Some 1%Q; Some 2%Q]] |} in
-  option_map db_names (reload "Db" ser_Db deser_Db o) = Some [W "New-2.1"; W "a"].
+  reload "Db" ser_Db deser_Db o = Some o.
 Proof. vm_compute. reflexivity. Qed.
 (* a name with a blank is two words in the file: the reload fails *)
 Theorem C08_Db_refuted_blank :
@@ -216,8 +215,8 @@ Theorem C08_DbGrid_rewrite : forall o o', wf_DbGrid o ->
   reload "DbGrid" ser_DbGrid deser_DbGrid o = Some o' -> file "DbGrid" ser_DbGrid o' = file "DbGrid" ser_DbGrid o.
 Proof. intros o o' H. apply rewrite_of_roundtrip. apply C08_DbGrid_roundtrip; exact H. Qed.
 
-(* ---- Vario: symmetric calculation, regular lags, directions not defined on a grid, every result defined;
-   any number of variables, directions, lags *)
+(* ---- Vario: any calculation type (symmetric or not), undefined results allowed; regular lags, directions not
+   defined on a grid; any number of variables, directions, lags *)
 Theorem C08_Vario_roundtrip : forall o, wf_Vario o -> forallb good_word (vr_names o) = true ->
   reload "Vario" ser_Vario deser_Vario o = Some o.
 Proof. intros o H Hn. apply roundtrip_of_reads; [reflexivity | apply good_Vario; exact Hn | apply Vario_reads; exact H]. Qed.
@@ -225,21 +224,26 @@ Print Assumptions C08_Vario_roundtrip.
 Theorem C08_Vario_rewrite : forall o o', wf_Vario o -> forallb good_word (vr_names o) = true ->
   reload "Vario" ser_Vario deser_Vario o = Some o' -> file "Vario" ser_Vario o' = file "Vario" ser_Vario o.
 Proof. intros o o' H Hn. apply rewrite_of_roundtrip. apply C08_Vario_roundtrip; assumption. Qed.
-Definition vario_witness (asym : bool) (res : list triple) : vario :=
-  {| vr_ndim := 1; vr_nvar := 1; vr_scale := Some 0%Q; vr_asym := asym; vr_names := [W "z"]; vr_vars := [[Some 2%Q]];
+Definition vario_witness (calcul : Z) (res : list triple) : vario :=
+  {| vr_ndim := 1; vr_nvar := 1; vr_scale := Some 0%Q; vr_calcul := calcul; vr_names := [W "z"]; vr_vars := [[Some 2%Q]];
      vr_dirs := [{| vd_regular := true; vd_npas := 1; vd_optcode := 0; vd_tolcode := Some 0%Q; vd_dpas := Some 1%Q;
                     vd_toldist := Some (1#2)%Q; vd_grincr := []; vd_tolang := Some 90%Q; vd_codir := [Some 1%Q]; vd_res := res |}] |}.
-(* a covariance (asymmetric: 2 npas + 1 results per direction) is reloaded as a variogram with the first npas results *)
-Theorem C08_Vario_refuted_asym :
+(* regression witnesses of the former defects: a covariance (2 npas + 1 results per direction) came back as a
+   variogram with the first npas results; an undefined result came back as 0 *)
+Theorem C08_Vario_asym_cured :
   let t k := (Some (inject_Z k), Some (inject_Z k), Some (inject_Z k)) in
-  option_map (fun o => (vr_asym o, map vd_res (vr_dirs o)))
-             (reload "Vario" ser_Vario deser_Vario (vario_witness true [t 1; t 2; t 3])) = Some (false, [[t 1]]).
+  let o := vario_witness 1 [t 1; t 2; t 3] in reload "Vario" ser_Vario deser_Vario o = Some o.
 Proof. vm_compute. reflexivity. Qed.
-(* an undefined result is written as 0 *)
-Theorem C08_Vario_refuted_undefined :
-  option_map (fun o => map vd_res (vr_dirs o))
-             (reload "Vario" ser_Vario deser_Vario (vario_witness false [(Some 0%Q, None, None)]))
-  = Some [[(Some 0%Q, Some 0%Q, Some 0%Q)]].
+Theorem C08_Vario_undefined_cured :
+  let o := vario_witness 0 [(Some 0%Q, None, None)] in reload "Vario" ser_Vario deser_Vario o = Some o.
+Proof. vm_compute. reflexivity. Qed.
+(* irregular lags: only the flag is written, the direction comes back regular *)
+Theorem C08_Vario_refuted_breaks :
+  let d := {| vd_regular := false; vd_npas := 1; vd_optcode := 0; vd_tolcode := Some 0%Q; vd_dpas := Some 1%Q;
+              vd_toldist := Some (1#2)%Q; vd_grincr := []; vd_tolang := Some 90%Q; vd_codir := [Some 1%Q];
+              vd_res := [(Some 1%Q, Some 1%Q, Some 1%Q)] |} in
+  let o := {| vr_ndim := 1; vr_nvar := 1; vr_scale := Some 0%Q; vr_calcul := 0; vr_names := [W "z"]; vr_vars := [[Some 2%Q]]; vr_dirs := [d] |} in
+  option_map (fun o => map vd_regular (vr_dirs o)) (reload "Vario" ser_Vario deser_Vario o) = Some [true].
 Proof. vm_compute. reflexivity. Qed.
 
 (* ---- Model: any number of structures (isotropic, anisotropic, rotated), variables, dimensions, drifts.
@@ -274,8 +278,9 @@ Example C08_nonvacuous_lex :
 Proof. vm_compute. split; reflexivity. Qed.
 Example C08_nonvacuous_NeighMoving :
   let o := {| nm_base := aneigh_default 3; nm_nmini := 2; nm_nmaxi := 10; nm_nsect := 4; nm_nsmax := 3; nm_distcont := None;
-              nm_radius := None; nm_aniso := true; nm_rot := false;
-              nm_coeffs := [Some 3%Q; Some (1#2)%Q; Some 7%Q]; nm_rotmat := idmat 3 |} in
+              nm_radius := Some 20%Q; nm_aniso := true; nm_rot := true;
+              nm_coeffs := [Some 3%Q; Some (1#2)%Q; Some 7%Q];
+              nm_rotmat := [Some (4#5)%Q; Some (3#5)%Q; Some 0%Q; Some (-3#5)%Q; Some (4#5)%Q; Some 0%Q; Some 0%Q; Some 0%Q; Some 1%Q] |} in
   wf_NeighMoving o /\ reload "NeighMoving" ser_NeighMoving deser_NeighMoving o = Some o.
 Proof.
   split; [|vm_compute; reflexivity].
@@ -298,7 +303,7 @@ Qed.
 Example C08_nonvacuous_AnamHermite :
   let o := {| ah_azmin := None; ah_azmax := None; ah_aymin := None; ah_aymax := None;
               ah_pzmin := Some 0%Q; ah_pzmax := Some 9%Q; ah_pymin := Some (-3)%Q; ah_pymax := Some 3%Q;
-              ah_mean := Some (3#2)%Q; ah_variance := Some (5#16)%Q; ah_rcoef := Some 1%Q;
+              ah_mean := Some (3#2)%Q; ah_variance := Some (17#256)%Q; ah_rcoef := Some (1#2)%Q;
               ah_psi := [Some (3#2)%Q; Some (-1#2)%Q; Some (1#4)%Q] |} in
   wf_AnamHermite o /\ reload "AnamHermite" ser_AnamHermite deser_AnamHermite o = Some o.
 Proof.
@@ -311,6 +316,7 @@ Ltac wd := match goal with
   | |- wf_dbl ?d => let d' := eval vm_compute in d in
                     match d' with None => exact I | Some _ => change d with d'; split; vm_compute; reflexivity end
   end.
+Ltac nd := repeat (constructor; [vm_compute; intuition discriminate|]); constructor.
 Example C08_nonvacuous_Db :
   let o := {| db_nech := 2; db_names := [W "x"; W "z2"; W "zz"; W "sel"];
               db_locs := [Some (0%nat, 0); Some (1%nat, 1); Some (1%nat, 0); Some (10%nat, 0)];
@@ -323,7 +329,7 @@ Proof.
   split. { fa; (split; [reflexivity | split; [fa; wd | discriminate]]). }
   split; [vm_compute; reflexivity|].
   split. { fa; vm_compute; repeat split; congruence. }
-  split; vm_compute; reflexivity.
+  split; [nd | vm_compute; reflexivity].
 Qed.
 Example C08_nonvacuous_DbGrid :
   let d := {| db_nech := 2; db_names := [W "rank"; W "v"]; db_locs := [None; Some (1%nat, 0)];
@@ -341,26 +347,26 @@ Proof.
   split. { fa; (split; [reflexivity | split; [fa; wd | discriminate]]). }
   split; [vm_compute; reflexivity|].
   split. { fa; vm_compute; repeat split; congruence. }
-  split; vm_compute; reflexivity.
+  split; [nd | vm_compute; reflexivity].
 Qed.
 Example C08_nonvacuous_Vario :
   let t k := (Some (inject_Z k), Some (k # 2)%Q, Some (inject_Z k)) in
-  let o := {| vr_ndim := 2; vr_nvar := 2; vr_scale := Some 0%Q; vr_asym := false; vr_names := [W "a"; W "b"];
+  let o := {| vr_ndim := 2; vr_nvar := 2; vr_scale := Some 0%Q; vr_calcul := 1; vr_names := [W "a"; W "b"];
               vr_vars := [[Some 2%Q; Some (1#2)%Q]; [Some (1#2)%Q; Some 3%Q]];
               vr_dirs := [{| vd_regular := true; vd_npas := 2; vd_optcode := 0; vd_tolcode := Some 0%Q; vd_dpas := Some 1%Q;
                              vd_toldist := Some (1#2)%Q; vd_grincr := []; vd_tolang := Some 45%Q;
-                             vd_codir := [Some (3#5)%Q; Some (4#5)%Q]; vd_res := [t 1; t 3; t 5; t 7; t 9; t 11] |}] |} in
+                             vd_codir := [Some (3#5)%Q; Some (4#5)%Q]; vd_res := map t [1; 3; 5; 7; 9; 11; 13; 15; 17; 19; 21; 23; 25; 27; 29] |}] |} in
   wf_Vario o /\ reload "Vario" ser_Vario deser_Vario o = Some o.
 Proof.
   split; [|vm_compute; reflexivity].
-  unfold wf_Vario; cbn [vr_ndim vr_nvar vr_scale vr_asym vr_names vr_vars vr_dirs].
-  split; [reflexivity|]. split; [wd|]. split; [reflexivity|]. split; [reflexivity|].
+  unfold wf_Vario; cbn [vr_ndim vr_nvar vr_scale vr_calcul vr_names vr_vars vr_dirs].
+  split; [wd|]. split; [reflexivity|]. split; [reflexivity|].
   split. { fa; (split; [reflexivity | fa; wd]). }
   fa. unfold wf_vdir; cbn [vd_regular vd_npas vd_optcode vd_tolcode vd_dpas vd_toldist vd_grincr vd_tolang vd_codir vd_res].
   split; [reflexivity|]. split; [reflexivity|]. split; [wd|]. split; [wd|]. split; [wd|]. split; [wd|].
   split; [vm_compute; reflexivity|]. split; [reflexivity|]. split; [fa; wd|]. split; [discriminate|].
   split; [reflexivity|].
-  fa; unfold wf_triple, defined; repeat split; try discriminate; vm_compute; reflexivity.
+  fa; unfold wf_triple; repeat split; vm_compute; reflexivity.
 Qed.
 Example C08_nonvacuous_Model :
   let hr := fun t => negb (t =? 0) in let hp := fun t => t =? 7 in
